@@ -27,6 +27,9 @@ def run(F, tier):
     rep.rules.pop("G4", None); rep.rules.pop("G6", None)
     # only the variant-step instances of G5 concern option letters
     grules.g7(rep, tms, F)
+    # which option enum (= which letter set) stands at which position of which message
+    grules.g11(rep, tms)
+    rep.findings = [f for f in rep.findings if not (f.rule == "G11" and not f.instance.endswith(":type"))]
     rep.sample({"enum": "Field59", "arguments": ["None", 'Some("")', 'Some("A")', "..."],
                 "rule": "O1 evaluates the match arms statically"})
     emit.e1(rep, F, "fields")
@@ -36,6 +39,19 @@ def run(F, tier):
     rx = re.compile(r"^<(%s) as traits::SwiftField>::parse(_with_variant)?$" % "|".join(re.escape(e) for e in enums))
     accept.u6(rep, F, ("options", rx, 25))
     accept.u7(rep, F, ("options", rx, 25))
+    # the letterless fallback of an option enum tries its variants' own parsers: what each of them accepts decides
+    # which variant a content falls into
+    payload = set()
+    for e in enums:
+        ad = F.adts.get(e) or {}
+        for v in ad.get("variants") or []:
+            for f_ in v.get("fields") or []:
+                ty = (f_.get("ty") or "").strip()
+                if ty.startswith("fields::") and ty in F.adts:
+                    payload.add(ty)
+    if payload:
+        rxv = re.compile(r"^<(%s) as traits::SwiftField>::parse$" % "|".join(re.escape(t) for t in sorted(payload)))
+        accept.u6(rep, F, ("option-variants", rxv, 60))
     # message-level routing of option letters done by hand (a helper that looks at the next tag itself)
     mh = ("message-helpers", re.compile(r"^messages::\w+::\w+::parse_(?!from_block4)"), 1)
     accept.u6(rep, F, mh)
